@@ -184,7 +184,7 @@ Proof.
   intros Hst Hk3 yu ou z Hv. unfold dtz_static in Hst.
   apply andb_prop in Hst. destruct Hst as [Hst Hfc]. apply andb_prop in Hst. destruct Hst as [Hst Hoff].
   apply andb_prop in Hst. destruct Hst as [Hst Hct]. apply andb_prop in Hst. destruct Hst as [Hst Hcd].
-  apply andb_prop in Hst. destruct Hst as [Hs Hk].
+  apply andb_prop in Hst. destruct Hst as [Hsk Hk]. destruct (static_ok_split items Hsk) as (Hs & N1 & N2).
   destruct z as [[du [su fu]] off]. pose proof Hv as (Hr & Hvt & Ho & Hm & Hw).
   cbn [Model.DateTime.dz_utc Model.DateTime.dz_off Model.DateTime.nd_date Model.DateTime.nd_time Model.Time.tsecs] in *.
   set (n := dn_of_yo yu ou + (su + off) / 86400) in *.
@@ -212,6 +212,7 @@ Proof.
               ltac:(intros _; discriminate) items Hs Hk) as (texts & HF).
   { rewrite Forall_forall. intros it Hin. unfold frac_class_ok in Hfc. rewrite forallb_forall in Hfc.
     exact (frac_class_item sv k it (Hfc it Hin)). }
+  { intros dn _. split; intros Hc; congruence. }
   destruct (static_accept sv on Bsv Hmin items texts Hs HF) as (ws & HU & HE).
   pose proof (eq_trans (map_fst_absorb (combine items texts)) (map_fst_combine items texts (F2_length _ _ _ HF))) as Hl.
   destruct (real_presence items _ ws Hl HU) as [HP HN].
